@@ -26,7 +26,7 @@ ASSUMPTIONS = [
 ]
 REQUIRED = {"roundtrip.v2.mol": 50, "roundtrip.v2.ens": 20, "roundtrip.v1.mol": 10, "roundtrip.v1.ens": 10,
             "read.fresh-handle": 50, "source-unchanged": 50, "read.again-after-editing-previous-result": 50,
-            "source.atoms-lent-to-another-structure": 20, "read.failed-decode-before-good-reads": 5}
+            "source.atoms-lent-to-another-structure": 20, "source.large-text-attribute": 10, "read.failed-decode-before-good-reads": 5}
 CHUNK_TIMEOUT = 900
 
 RTOL, ATOL = 1.2e-7, 1e-38
@@ -99,6 +99,12 @@ def run_chunk(spec, ctx):
         else:
             x = gen.ensemble(rng, rich=True)
         key = rng.choice([f"k{j}", f"key with space {j}", f"ü{j}", f"{j}" + "x" * 200, f"{j}/slash"])
+        # a few objects carry a large record: a long text attribute (a program log kept with the molecule), a long label
+        if rng.random() < 0.04:
+            x.attrib["log"] = "line of a program log\n" * rng.choice([3000, 3200, 4000])      # 66-88 kB
+            ctx.count("source.large-text-attribute")
+            if x.n_atoms and rng.random() < 0.5:
+                x.atoms[0].label = "L" * 70000
         # some objects have lent (some of) their atoms to another structure before they are stored: atoms given to a
         # constructor without copy_atoms are adopted by it (their parent link is re-pointed), the object itself is unchanged
         if x.n_atoms >= 2 and rng.random() < 0.2:
